@@ -339,6 +339,179 @@ func TestVerif_C02(t *testing.T) {
 			}
 		}
 	}
+	// long histories (single executions, not claimed exhaustive): up to and beyond the
+	// 371-record capacity of the dense name index, three shapes each
+	for _, tg := range targets {
+		for _, L := range []int{50, 371, 372, 400} {
+			for _, shape := range []string{"grow-only", "grow-then-delete-every-second", "overwrite-each-with-another-size"} {
+				if tg.kind == "group" && shape == "grow-then-delete-every-second" {
+					continue // no delete on groups
+				}
+				var h []vfOp
+				if tg.kind == "dataset" {
+					h = append(h, vfOp{Op: "mkds", Path: tg.path, Type: "f64", Dims: []uint64{3}})
+				} else {
+					h = append(h, vfOp{Op: "mkgroup", Path: tg.path})
+				}
+				np := len(h)
+				for i := 0; i < L; i++ {
+					h = append(h, vfOp{Op: "attr", Path: tg.path, Name: fmt.Sprintf("L%04d", i), Value: []string{"i32a", "s1", "f64"}[i%3]})
+				}
+				switch shape {
+				case "grow-then-delete-every-second":
+					for i := 0; i < L; i += 2 {
+						h = append(h, vfOp{Op: "delattr", Path: tg.path, Name: fmt.Sprintf("L%04d", i)})
+					}
+				case "overwrite-each-with-another-size":
+					for i := 0; i < L; i++ {
+						h = append(h, vfOp{Op: "attr", Path: tg.path, Name: fmt.Sprintf("L%04d", i), Value: []string{"s40", "i64", "u8"}[i%3]})
+					}
+				}
+				ex := vfRun(dir, nil, h, true)
+				r.Transitions(1)
+				name := fmt.Sprintf("long/%s/%s/L=%d", tg.kind, shape, L)
+				r.Case(name)
+				model := map[string]string{}
+				accepted := 0
+				for i, o := range h[np:] {
+					if ex.Errs[np+i] != nil {
+						continue
+					}
+					if o.Op == "attr" {
+						model[o.Name] = o.Value
+						accepted++
+					} else {
+						delete(model, o.Name)
+					}
+				}
+				detail := map[string]any{"family": name, "accepted_operations": accepted, "model_size": len(model)}
+				tree := ex.Closed
+				if tree == nil {
+					detail["open_error"] = fmt.Sprint(ex.ClosedErr)
+					r.Fail(fmt.Sprintf("long/%s/%s/file-unopenable", tg.kind, shape), detail)
+					continue
+				}
+				ob := tree.Get(tg.path)
+				if ob == nil || ob.AttrErr {
+					r.Fail(fmt.Sprintf("long/%s/%s/attributes-unreadable", tg.kind, shape), detail)
+					continue
+				}
+				got := map[string]vfAttr{}
+				bad := ""
+				for _, a := range ob.Attrs {
+					if _, dup := got[a.Name]; dup {
+						bad = "duplicate-name"
+					}
+					got[a.Name] = a
+				}
+				for n, kind := range model {
+					a, ok := got[n]
+					if !ok {
+						bad = "missing"
+					} else if m := vfAttrMatches(a, kind); m != "" {
+						bad = "value-" + m
+					}
+				}
+				for n := range got {
+					if _, ok := model[n]; !ok {
+						bad = "extra"
+					}
+				}
+				if bad != "" {
+					detail["got_count"] = len(got)
+					r.Fail(fmt.Sprintf("long/%s/%s/%s", tg.kind, shape, bad), detail)
+				} else {
+					r.Outcome("long-ok")
+				}
+			}
+		}
+	}
+	// capacity family: the dataset's single-chunk object header is brought to every reachable
+	// total in [228,255] message bytes by attributes (the values the model records), then a
+	// neighbour object is created and written right behind it, then one more small attribute
+	// is attempted; the attribute set must equal the model after each step.
+	{
+		mkX := vfOp{Op: "mkds", Path: "/d", Type: "f64", Dims: []uint64{3}}
+		fills := vfHeaderFillStates(dir, mkX, 228, 255)
+		var totals []int
+		for t := range fills {
+			totals = append(totals, t)
+		}
+		sort.Ints(totals)
+		r.Set("capacity_header_totals_reached", totals)
+		neighbours := [][]vfOp{
+			{{Op: "mkds", Path: "/y", Type: "f64", Dims: []uint64{4}}, {Op: "write", Path: "/y", Pat: 2}},
+			{{Op: "mkgroup", Path: "/y"}},
+			{{Op: "mkds", Path: "/y", Type: "i32", Dims: []uint64{4}, Chunk: []uint64{2}}, {Op: "write", Path: "/y", Pat: 2}},
+		}
+		tails := [][]vfOp{nil, {{Op: "attr", Path: "/d", Name: "t", Value: "u8"}}, {{Op: "write", Path: "/d", Pat: 3}}, {{Op: "attr", Path: "/d", Name: "h", Value: "str:5"}}}
+		type cj struct {
+			t int
+			h []vfOp
+		}
+		var jobs []cj
+		for _, t := range totals {
+			for _, nb := range neighbours {
+				for _, tl := range tails {
+					jobs = append(jobs, cj{t, append(append(append([]vfOp{}, fills[t]...), nb...), tl...)})
+				}
+			}
+		}
+		vkit.ParallelFor(len(jobs), func(i int) {
+			j := jobs[i]
+			ex := vfRun(dir, nil, j.h, true)
+			r.Transitions(1)
+			r.Case(fmt.Sprintf("capacity-%d: %s", j.t, vfOpsString(j.h)))
+			model := map[string]string{}
+			for k, o := range j.h {
+				if o.Path != "/d" || ex.Errs[k] != nil {
+					continue
+				}
+				if o.Op == "attr" {
+					model[o.Name] = o.Value
+				}
+			}
+			detail := map[string]any{"family": "capacity", "header_message_bytes": j.t, "ops": j.h, "history": vfOpsString(j.h)}
+			tree := ex.Closed
+			if tree == nil {
+				detail["open_error"] = fmt.Sprint(ex.ClosedErr)
+				r.Fail("capacity/file-unopenable", detail)
+				return
+			}
+			ob := tree.Get("/d")
+			if ob == nil || ob.AttrErr {
+				r.Fail("capacity/attributes-unreadable", detail)
+				return
+			}
+			got := map[string]vfAttr{}
+			bad := ""
+			for _, a := range ob.Attrs {
+				if _, dup := got[a.Name]; dup {
+					bad = "duplicate-name"
+				}
+				got[a.Name] = a
+			}
+			for n, kind := range model {
+				a, ok := got[n]
+				if !ok {
+					bad = "missing"
+				} else if m := vfAttrMatches(a, kind); m != "" {
+					bad = "value-" + m
+				}
+			}
+			for n := range got {
+				if _, ok := model[n]; !ok {
+					bad = "extra"
+				}
+			}
+			if bad != "" {
+				detail["got"] = ob.Content()
+				r.Fail("capacity/"+bad, detail)
+			} else {
+				r.Outcome("capacity-ok")
+			}
+		})
+	}
 	r.States(int64(len(states)))
 	r.Sample(map[string]any{"colliding_names": []string{cA, cB}, "hash": structures.VerifNameHash(cA)})
 	r.Sample(map[string]any{"start": "k7 on dataset", "sequence": "attr(/d,a,i32a); attr(/d," + cA + ",s40); delattr(/d,a)"})
